@@ -231,6 +231,13 @@ def presets(repo, chk):
             chk.bad('C12.1c', 'R13', fn.site(a), ast.unparse(a).replace('\n', ' ')[:120], 'the collection is (re-)initialised inside the loop over the preset names: only the last preset of a list survives (or a vault dict is aliased and later mutated)')
         else:
             chk.unsure('C12.1c', 'R13', fn.site(a), ast.unparse(a)[:120], 'unrecognised update of the collection inside the preset loop')
+    # the merge of the preset that was looked up must happen per name, inside the loop: after the loop the lookup variable holds the LAST preset only
+    outside = [c for c in own_nodes(fn.node) if isinstance(c, ast.Call) and isinstance(c.func, ast.Attribute) and c.func.attr == 'update' and is_coll(c.func.value) and not any(c is x for x in ast.walk(lp))
+               and c.args and isinstance(c.args[0], ast.Name) and c.args[0].id in sub_names and getattr(c, 'lineno', 0) > getattr(lp, 'end_lineno', lp.lineno)]
+    if outside and not any(isinstance(c, ast.Call) and isinstance(c.func, ast.Attribute) and c.func.attr == 'update' and is_coll(c.func.value) for c in ast.walk(lp)) and not inside:
+        chk.bad('C12.1e', 'R13', fn.site(outside[0]), ast.unparse(outside[0])[:100], f'the preset is merged into the collection AFTER the loop over the preset names: `{outside[0].args[0].id}` then holds only the last '
+                'preset of the list, so a comma-separated list selects its last preset instead of the union')
+        return
     updates = [c for c in ast.walk(lp) if isinstance(c, ast.Call) and isinstance(c.func, ast.Attribute) and c.func.attr == 'update' and is_coll(c.func.value)]
     for c in updates:
         # merging by .update(<preset>) is fine on a fresh dict of our own (the vault dict is only read)
@@ -446,6 +453,16 @@ def keep_drop(repo, chk):
 def numeric_parse(repo, chk):
     fn = repo.func(RT, f'{CLS}.get_vals')
     m = fn.module
+    # the parsed column is a float64 array: a narrower float changes the numbers the formulas are applied to (1e300 -> inf, 16777217 -> 16777216)
+    for c in own_nodes(fn.node):
+        if isinstance(c, ast.Call):
+            dt = next((k.value for k in c.keywords if k.arg == 'dtype'), None)
+            if dt is None and isinstance(c.func, ast.Attribute) and c.func.attr == 'astype' and c.args:
+                dt = c.args[0]
+            if dt is not None and ast.unparse(dt).split('.')[-1].strip("'\"") in ('float32', 'float16', 'half', 'single', 'int32', 'int16', 'int8', 'int64', 'int'):
+                chk.bad('C12.3', 'R8', fn.site(c), ast.unparse(c)[:100], f'the numeric parse is returned as {ast.unparse(dt)}: values outside the exact range of that type are rounded / overflow (1e300 -> inf, '
+                        '2**24 + 1 -> 2**24), so the transformations are evaluated on other numbers than the parsed cells')
+                return
     comps = [n for n in own_nodes(fn.node) if isinstance(n, ast.ListComp) and any(isinstance(c, ast.Call) and isinstance(c.func, ast.Name) and c.func.id == 'float' for c in ast.walk(n))]
     if len(comps) != 1:
         # found and different: a tolerant parser in the place of float() - pd.to_numeric(errors='coerce') / Series.astype(float) after a replace
